@@ -333,6 +333,9 @@ func ruleC05LockRead(cx *Ctx) {
 			}
 		})
 		sites := lc.sites[origin(f)]
+		if lockFree && len(sites) == 0 && handedOnlyToLazy(cx, f, lazy) {
+			return true // a method value the lazy iterator calls when it is consumed (walk(d.Tail, d.getPrev))
+		}
 		if !lockFree || len(sites) == 0 {
 			return false
 		}
@@ -456,4 +459,67 @@ func onlyWithin(cx *Ctx, f, within *ssa.Function, depth int) bool {
 		})
 	}
 	return ok && sites > 0
+}
+
+
+// handedOnlyToLazy: the method f is used only as a method value handed to constructors of lazy iterators, whose
+// parameter is captured by (and nowhere else used than in) the lazily evaluated closure they return.
+func handedOnlyToLazy(cx *Ctx, f *ssa.Function, lazy map[*ssa.Function]bool) bool {
+	n, all := 0, true
+	for _, g := range cx.P.ModuleFuncs() {
+		allInstrs(g, func(in ssa.Instruction) {
+			mc, ok := in.(*ssa.MakeClosure)
+			if !ok || boundMethod(mc) == nil || origin(boundMethod(mc)) != origin(f) {
+				return
+			}
+			for _, u := range usesOf(mc) {
+				if _, dbg := u.(*ssa.DebugRef); dbg {
+					continue
+				}
+				n++
+				c, isCall := u.(*ssa.Call)
+				ctor := calleeOf(u)
+				if !isCall || ctor == nil {
+					all = false
+					continue
+				}
+				ctor = origin(ctor)
+				for ai, a := range c.Call.Args {
+					if a != ssa.Value(mc) || ai >= len(ctor.Params) {
+						continue
+					}
+					// the parameter is only bound into lazy closures of the constructor
+					for _, r := range *ctor.Params[ai].Referrers() {
+						switch x := r.(type) {
+						case *ssa.DebugRef:
+						case *ssa.MakeClosure:
+							if cl, _ := x.Fn.(*ssa.Function); cl == nil || !lazy[cl] {
+								all = false
+							}
+						case *ssa.Store:
+							al, isAl := x.Addr.(*ssa.Alloc)
+							if !isAl {
+								all = false
+								continue
+							}
+							for _, r2 := range *al.Referrers() {
+								switch y := r2.(type) {
+								case *ssa.Store, *ssa.DebugRef:
+								case *ssa.MakeClosure:
+									if cl, _ := y.Fn.(*ssa.Function); cl == nil || !lazy[cl] {
+										all = false
+									}
+								default:
+									all = false
+								}
+							}
+						default:
+							all = false
+						}
+					}
+				}
+			}
+		})
+	}
+	return n > 0 && all
 }
